@@ -191,6 +191,10 @@ class Params:
         self.ob_chips = g("ob_chips", rng.choice(["0-6/8-14", "0-6/8-14", "any"]))
         self.target_packets = g("target_packets", None)
         self.det_bits = g("det_bits", rng.random() < 0.5)
+        # link ids are not restricted by any documented rule: ids above 15 (aliasing modulo 16 / 32 / 128) and, where validators are
+        # per FEE id (stave mode), several FEE ids behind one link id
+        self.link_ids = g("link_ids", rng.choice(["std", "std", "wide", "wide"]))
+        self.shared_link_ids = g("shared_link_ids", False)
         self.trigger_extra = g("trigger_extra", rng.random() < 0.3)
 
 
@@ -207,8 +211,17 @@ def _pick_links(rng, P, s):
         fee = R.fee_id(layer, stave, fiber)
         if fee in used_fee:
             continue
-        link_id = rng.choice([x for x in range(0, 24) if x not in used_link]) if P.n_links > 12 else \
-            rng.choice([x for x in list(range(12)) + [15] if x not in used_link])
+        if P.shared_link_ids and used_link and rng.random() < 0.6:
+            link_id = rng.choice(sorted(used_link))
+            s.features.add("links:shared_link_id")
+        elif P.link_ids == "wide" and rng.random() < 0.7:
+            base = rng.choice(sorted(used_link)) if used_link and rng.random() < 0.7 else rng.randrange(256)
+            cand = [(base + k) & 0xFF for k in (16, 32, 64, 128, 240, 0) if ((base + k) & 0xFF) not in used_link]
+            link_id = rng.choice(cand) if cand else rng.choice([x for x in range(256) if x not in used_link])
+            s.features.add("links:wide_ids")
+        else:
+            link_id = rng.choice([x for x in range(0, 24) if x not in used_link]) if P.n_links > 12 else \
+                rng.choice([x for x in list(range(12)) + [15] if x not in used_link] or [x for x in range(256) if x not in used_link])
         used_link.add(link_id)
         used_fee.add(fee)
         s.links.append(Link(link_id, layer, stave, fiber, list(groups[fiber]), rng.randrange(4096), rng.choice([0, 0, 1])))
